@@ -632,7 +632,37 @@ func errorProvenance(v ssa.Value, errT *types.Named, layer map[*ssa.Function]boo
 		// a named result read back
 		return false, "a loaded value"
 	case *ssa.Parameter:
-		return false, "a parameter"
+		// an error handed in by the caller (a helper parameterised by the error to report): fine when every call
+		// site inside the layer passes nil, a DecodeError or an error of the layer
+		fn := x.Parent()
+		idx := -1
+		for i, p := range fn.Params {
+			if p == x {
+				idx = i
+			}
+		}
+		if idx < 0 {
+			return false, "a parameter"
+		}
+		sites := 0
+		for caller := range layer {
+			for _, b := range caller.Blocks {
+				for _, ins := range b.Instrs {
+					ci, ok := ins.(ssa.CallInstruction)
+					if !ok || ci.Common().StaticCallee() != fn || idx >= len(ci.Common().Args) {
+						continue
+					}
+					sites++
+					if ok2, why := errorProvenance(ci.Common().Args[idx], errT, layer, seen); !ok2 {
+						return false, "a parameter that a caller sets to " + why
+					}
+				}
+			}
+		}
+		if sites == 0 {
+			return false, "a parameter of a function without call sites in the layer"
+		}
+		return true, ""
 	}
 	return false, fmt.Sprintf("%T", v)
 }
@@ -760,6 +790,25 @@ func shortSideFails(lenCall *ssa.Call, cmp *ssa.BinOp) string {
 						if len(y.Results) == 2 {
 							if c, ok := y.Results[1].(*ssa.Const); ok && c.Value != nil && c.Value.ExactString() == "0" {
 								continue // operand decoder: n == 0
+							}
+							// a single exit "return c, n": n must be 0 along every edge that comes from the short side
+							if phi, ok := y.Results[1].(*ssa.Phi); ok && phi.Block() == b {
+								okPhi := true
+								for i, p := range b.Preds {
+									if !seen[p] && p != r.Block() {
+										continue // not from the short side
+									}
+									if p == r.Block() && r.Block().Succs[shortSucc] != b {
+										continue
+									}
+									c, isC := phi.Edges[i].(*ssa.Const)
+									if !isC || c.Value == nil || c.Value.ExactString() != "0" {
+										okPhi = false
+									}
+								}
+								if okPhi {
+									continue
+								}
 							}
 						}
 						if fn.Name() == "decode" && len(y.Results) == 1 {
